@@ -14,6 +14,10 @@ def check(ctx):
     rep.floor("reader character classes", n4, 4)
     n5 = escapes.check_grid_layout(ctx, rep)
     rep.floor("grid header layout obligations", n5, 5)
+    n9 = escapes.check_separators(ctx, rep)
+    rep.floor("separator writes inside enumerate loops", n9, 4)
+    n10 = escapes.check_nesting_flag(ctx, rep)
+    rep.floor("zinc_encode call sites (nesting flag)", n10, 5)
     n7 = escapes.check_number_format(ctx, rep)
     rep.floor("f64 placeholders in the Zinc writer", n7, 4)
     n8 = escapes.check_timestamp_format(ctx, rep)
